@@ -1,6 +1,7 @@
 package rules
 
 import (
+	"regexp"
 	"sort"
 	"strings"
 )
@@ -30,8 +31,18 @@ func canonShape(s string) string {
 	return s
 }
 
+// `x := E; for ; C; P {…}` is `for x := E; C; P {…}` when C mentions x
+var forInitRe = regexp.MustCompile(`assign\((\$[0-9]+) := ([^;\[\]{}]*)\); for\(\(\); ([^;]*);`)
+
 func canonShapeOnce(s string) string {
 	s = strings.ReplaceAll(s, "slice.Length(", "slice.Len(")
+	s = forInitRe.ReplaceAllStringFunc(s, func(m string) string {
+		g := forInitRe.FindStringSubmatch(m)
+		if !strings.Contains(g[3], g[1]) {
+			return m
+		}
+		return "for(assign(" + g[1] + " := " + g[2] + "); " + g[3] + ";"
+	})
 	var b strings.Builder
 	i := 0
 	for i < len(s) {
